@@ -58,6 +58,7 @@ type HarnessCfg struct {
 	OneShot     bool // assertion queries go to a fresh non-incremental solver process
 	FPUF        bool // float arithmetic as uninterpreted functions (sound for proving equalities such as symmetry)
 	NoMerge     bool // disable ite-merging of pure diamonds (debugging / cross-validation)
+	KeepWitnesses bool // keep a model for every satisfied cover
 	Entry       func(in *Interp, p *Path) // engine-level harness body (instead of a Go harness function)
 	PanicIsViol bool // a Go panic in the code under test counts as violation label "panic"
 }
@@ -82,6 +83,7 @@ type HarnessResult struct {
 	CrossDiff    []string
 	ForkSites    map[string]int64
 	Notes        map[string]int
+	Witnesses    []Violation // models of satisfied covers (used by selftest: native run must agree)
 	Reports      map[string][]int64
 	mu           sync.Mutex
 }
@@ -472,10 +474,14 @@ func (p *Path) vxCover(label string, c *Term) {
 	if seen {
 		return
 	}
-	r, _ := p.query(false, c)
+	r, model := p.query(p.ex.cfg.KeepWitnesses, c)
 	if r == "sat" {
 		res.mu.Lock()
 		res.CoverSeen[label] = true
+		if p.ex.cfg.KeepWitnesses && model != nil {
+			vec, tags := p.model2vec(model)
+			res.Witnesses = append(res.Witnesses, Violation{Harness: p.ex.cfg.Name, Label: label, Vec: vec, Tags: tags})
+		}
 		res.mu.Unlock()
 	}
 }
